@@ -340,8 +340,10 @@ private:
             }
           }
 
+          // Taken by value: the error may live in the cleanup operation's
+          // state, which is destroyed before the error is forwarded.
           template <typename Error>
-          void set_error(Error&& error) && noexcept {
+          void set_error(Error error) && noexcept {
             auto& op = op_;
             op.cleanupOp_.destruct();
 
